@@ -5,7 +5,7 @@ capture operands), effects (call classification), arms (per incoming Message var
 path enumeration over the arm's CFG with constant propagation of compiler-generated
 drop flags.  No callbag code is executed; everything here is a traversal of the MIR CFG.
 """
-import json, re, sys
+import json, os, re, sys
 from functools import lru_cache
 
 VARIANTS = ["Handshake", "Data", "Pull", "Error", "Terminate"]
@@ -165,6 +165,45 @@ PANIC_CALLEES = {
 TRACING_CRATES = {"tracing", "tracing_core", "tracing_futures", "tracing_attributes", "log"}
 
 
+def rewrite(e, fn, depth=0):
+    """Bottom-up rewriting of an expression tree: fn(node) -> replacement or None."""
+    if not isinstance(e, tuple) or not e or not isinstance(e[0], str) or depth > 80:
+        return e
+    parts = []
+    changed = False
+    for x in e:
+        if isinstance(x, tuple) and x and isinstance(x[0], str):
+            y = rewrite(x, fn, depth + 1)
+        elif isinstance(x, tuple):
+            y = tuple(rewrite(z, fn, depth + 1) if isinstance(z, tuple) and z and isinstance(z[0], str) else z for z in x)
+        else:
+            y = x
+        changed = changed or (y is not x)
+        parts.append(y)
+    ne = tuple(parts) if changed else e
+    # simplifications that become possible after a substitution
+    if ne[0] == "field" and isinstance(ne[1], tuple) and ne[1][0] == "agg" and isinstance(ne[2], int) and ne[2] < len(ne[1][3]):
+        ne = ne[1][3][ne[2]]
+    elif ne[0] == "field" and isinstance(ne[1], tuple) and ne[1][0] == "downcast" and isinstance(ne[1][1], tuple) and ne[1][1][0] == "agg" \
+            and ne[1][1][1] == "adt" and ne[1][1][2].endswith("::" + str(ne[1][2])) and isinstance(ne[2], int) and ne[2] < len(ne[1][1][3]):
+        ne = ne[1][1][3][ne[2]]
+    r = fn(ne)
+    return ne if r is None else r
+
+
+def send_fields(msg):
+    """(variant, payload) of a message expression."""
+    if msg[0] == "agg" and msg[1] == "adt" and msg[2].startswith("Message::"):
+        variant = msg[2].split("::")[1]
+        payload = msg[3][0] if msg[3] else None
+        while payload is not None and payload[0] == "someof" and payload[1][0] == "agg" and payload[1][1] == "closure":
+            payload = payload[1]
+        return variant, payload
+    if msg[0] == "param":
+        return "INCOMING", msg
+    return "UNKNOWN", msg
+
+
 class Body:
     def __init__(self, prog, raw):
         self.prog = prog
@@ -254,15 +293,46 @@ class Body:
                             x = self._def_expr(d)
                             if x not in es:
                                 es.append(x)
-                        e = es[0] if len(es) == 1 else ("phi", tuple(es))
+                        e = es[0] if len(es) == 1 else ("phi", tuple(es), "%s|%d" % (self.id, l))
             self._origin_cache[l] = e
             return e
         finally:
             self._in_progress.discard(l)
 
+    def mutable_saved_slots(self):
+        """Coroutine state slots written by at least two different statements (a task-local variable that is updated, like a
+        counter): reads of such a slot into a local are versioned by their statement, because the slot changes over time."""
+        if getattr(self, "_mut_saved", None) is None:
+            self._mut_saved = set()
+            if self.kind == "coroutine":
+                cnt = {}
+                for (bid, i, lhs, rv, s) in self.place_stores:
+                    if rv["k"] == "setdiscr":
+                        continue
+                    pe = self.place_expr(lhs)
+                    if pe[0] == "saved":
+                        cnt.setdefault(pe, set()).add((bid, i))
+                self._mut_saved = {pe for pe, st in cnt.items() if len(st) >= 2}
+        return self._mut_saved
+
+    def versioned_read(self, rv, bid, idx):
+        """('ldsaved', slot, (body, bb, stmt)) if the statement copies a mutable saved slot into a local."""
+        if self.kind != "coroutine" or rv["k"] != "use":
+            return None
+        pl = rv["o"].get("copy") or rv["o"].get("move")
+        if pl is None or not pl["p"]:
+            return None
+        pe = self.place_expr(pl)
+        if pe[0] == "saved" and pe in self.mutable_saved_slots():
+            return ("ldsaved", pe, (self.id, bid, idx))
+        return None
+
     def _def_expr(self, d):
         kind, bid, idx, x = d
         if kind == "stmt":
+            vr = self.versioned_read(x, bid, idx)
+            if vr is not None:
+                return vr
             return self.rvalue_expr(x, (self.id, bid))
         if kind == "call":
             return self.call_expr(x, (self.id, bid))
@@ -347,6 +417,9 @@ class Body:
             ak = rv["ak"]
             if ak == "adt":
                 name = rv["adt"].split("::")[-1] + "::" + rv["variant"]
+                if rv["adt"] == "core::Callbag" and len(ops) == 1:
+                    # the newtype around the boxed handler is transparent, like Callbag::from / Callbag::deref (CEN-core)
+                    return ops[0]
                 return ("agg", "adt", name, ops)
             if ak in ("closure", "coroutine"):
                 return ("agg", ak, rv["def"], ops)
@@ -410,6 +483,11 @@ class Program:
             self.raw = json.load(f)
         self.features = self.raw["features"]
         self.config = "tracing" if "tracing" in self.features else "default"
+        self.inlined = []
+        if not os.environ.get("CB_NO_INLINE"):
+            import inline
+            self.inlined = inline.inline_local_calls(self.raw)
+        self.inlined_closures = set(self.raw.get("inlined_closures", []))
         self.statics = self.raw["statics"]
         self.bodies = {}
         for rb in self.raw["bodies"]:
@@ -542,20 +620,8 @@ def classify_call(prog, body, bid, blk):
         recv = L(args[0])
         tup = L(args[1])
         msg = tup[3][0] if tup[0] == "agg" and tup[1] == "tuple" and tup[3] else tup
-        variant, payload = None, None
-        if msg[0] == "agg" and msg[1] == "adt" and msg[2].startswith("Message::"):
-            variant = msg[2].split("::")[1]
-            payload = msg[3][0] if msg[3] else None
-            # a handler reached through an Option that was just seen to be Some (Weak::upgrade) is still that handler
-            while payload is not None and payload[0] == "someof" and payload[1][0] == "agg" and payload[1][1] == "closure":
-                payload = payload[1]
-        elif msg[0] == "param":
-            variant = "INCOMING"
-            payload = msg
-        else:
-            variant = "UNKNOWN"
-            payload = msg
-        eff = Effect("send", site, s, recv=recv, variant=variant, payload=payload, self_kind=c.get("self_kind"))
+        variant, payload = send_fields(msg)
+        eff = Effect("send", site, s, recv=recv, variant=variant, payload=payload, msg=msg, self_kind=c.get("self_kind"))
     else:
         m = ATOMIC_RE.match(d)
         m2 = ARCSWAP_RE.match(d)
@@ -822,8 +888,14 @@ def enumerate_paths(prog, body, variant=None, entry=0, max_visits=2, inline=1, l
                     continue
                 if rv["k"] == "agg" and rv["ak"] in ("closure", "coroutine"):
                     events = events + [("mk", rv["def"], (body.id, bid))]
+                if cor and not lhs["p"] and rv["k"] == "use":
+                    vr = body.versioned_read(rv, bid, i)
+                    if vr is not None:
+                        events = events + [("ld", vr[2], vr[1])]
                 if not lhs["p"] and lhs["l"] == 0 and body.kind != "coroutine":
                     events = events + [("ret", prog.link(body.rvalue_expr(rv, (body.id, bid))))]
+                if not lhs["p"] and lhs["l"] not in body.flag_locals and len(body._defs.get(lhs["l"], [])) > 1 and rv["k"] != "setdiscr":
+                    events = events + [("set", "%s|%d" % (body.id, lhs["l"]), prog.link(body.rvalue_expr(rv, (body.id, bid))))]
                 if rv["k"] == "setdiscr" and cor:
                     last_state = rv["vi"]
                     continue
@@ -878,6 +950,8 @@ def enumerate_paths(prog, body, variant=None, entry=0, max_visits=2, inline=1, l
                                 out.append(Path(ev2, sp.end, blocks))
                         return
                     events = events + [("eff", eff)]
+                if k == "call" and not t["dest"]["p"] and len(body._defs.get(t["dest"]["l"], [])) > 1:
+                    events = events + [("set", "%s|%d" % (body.id, t["dest"]["l"]), prog.link(body.call_expr(t, (body.id, bid))))]
                 if not t["succ"]:
                     out.append(Path(events, "diverge", blocks))
                     return
@@ -943,6 +1017,25 @@ def enumerate_paths(prog, body, variant=None, entry=0, max_visits=2, inline=1, l
                             bid = j
                             continue
                 cond = prog.link(de)
+                if any((x[0] == "phi" and len(x) > 2) or x[0] == "flag" for x in walk(cond)):
+                    # a branch on a multi-assigned local: its value on this path is the last direct assignment seen
+                    last = {}
+                    for ev in events:
+                        if ev[0] == "set":
+                            last[ev[1]] = ev[2]
+                    def _res(x):
+                        if x[0] == "phi" and len(x) > 2 and x[2] in last:
+                            return last[x[2]]
+                        if x[0] == "flag" and x[1] == body.id and x[2] in env:
+                            # bool locals that only ever hold constants (drop flags, `let done = matches!(..)`) are tracked in env
+                            fv = env[x[2]]
+                            return ("const", "bool", None, int(fv) if str(fv).isdigit() else (1 if fv == "true" else 0))
+                        return None
+                    rc = rewrite(cond, _res)
+                    if rc[0] == "unop" and rc[1] == "Not" and rc[2][0] == "const" and rc[2][3] is not None:
+                        rc = ("const", "bool", None, 0 if rc[2][3] else 1)
+                    if rc[0] == "const" and rc[3] is not None:
+                        cond = rc       # only used to prune: a non-constant guard keeps its phi form for the lemmas
                 if cond[0] == "const" and cond[3] is not None:
                     tgt = t["otherwise"]
                     for v, b in t["targets"]:
